@@ -30,7 +30,7 @@ Definition spec_where (w : where_) (s : sstate) : sstate * list string * outcome
   | WCapture => (s_def GLeak (VClosure 41) s, [], OErr KRuntime (exc_msg 1))   (* c = || x completed *)
   | WBuiltin => (s, ["nf"], OErr KAttr attr_msg)
   | WCaptureFiber => (s_def GLeak (VClosure 41) s, [], OErr KRuntime (exc_msg 1))
-  | WFiberWait => (s_def GFib (VFiber false) s, [], OErr KRuntime (exc_msg 1))   (* the run is over: no fiber of it is still "called" *)
+  | WFiberWait => (s_def GFib VFiber s, [], OErr KRuntime (exc_msg 1))   (* the run is over: fw has finished *)
   end.
 
 (* loading a module that is not imported yet: what it prints, whether it completes, the loader calls *)
@@ -83,7 +83,7 @@ Definition spec_snippet (s : sstate) (sn : snip) : sstate * obs :=
       end
   | SnUseFiber =>
       match gget GFib (s_globals s) with
-      | Some (VFiber _) => (s, sobs ["true"] OOk [])     (* a fiber of a run that is over has finished *)
+      | Some VFiber => (s, sobs ["true"] OOk [])     (* a fiber of a run that is over has finished *)
       | _ => (s, sobs [] (OErr KName (name_error "fw")) [])
       end
   | SnImport m =>
@@ -114,14 +114,12 @@ Definition eval_spec (h : history) : list obs := s_history s_init h.
 (* ---------- the named classes of histories on which the code departs from the Spec ---------- *)
 (* failed_import_poisons_module: an import whose closure contains a module whose body failed earlier (no RESET in
    between). *)
-(* waiting_fiber_left_called: print(fw.has_finished()) where fw was waiting for the fiber whose uncaught error ended
-   an earlier run (no RESET in between). *)
-Inductive known_class := KFailedImport | KWaitingFiber.
+Inductive known_class := KFailedImport.
 
-Record kstate := mkK { k_poisoned : modk -> bool; k_waiting : bool }.
-Definition k_init : kstate := mkK (fun _ => false) false.
+Record kstate := mkK { k_poisoned : modk -> bool }.
+Definition k_init : kstate := mkK (fun _ => false).
 Definition k_poison (m : modk) (k : kstate) : kstate :=
-  mkK (fun x => if modk_eqb m x then true else k_poisoned k x) (k_waiting k).
+  mkK (fun x => if modk_eqb m x then true else k_poisoned k x).
 
 Definition scan_snippet (k : kstate) (sn : snip) : kstate * option known_class :=
   match sn with
@@ -129,8 +127,6 @@ Definition scan_snippet (k : kstate) (sn : snip) : kstate * option known_class :
   | SnImport MNest =>
       if k_poisoned k MNest || k_poisoned k MThrow then (k_poison MNest k, Some KFailedImport)
       else (k_poison MNest (k_poison MThrow k), None)
-  | SnThrow WFiberWait _ => (mkK (k_poisoned k) true, None)
-  | SnUseFiber => (k, if k_waiting k then Some KWaitingFiber else None)
   | SnReset => (k_init, None)
   | _ => (k, None)
   end.
@@ -148,7 +144,6 @@ Definition show_known (o : option known_class) : string :=
   match o with
   | None => "-"
   | Some KFailedImport => "failed_import_poisons_module"
-  | Some KWaitingFiber => "waiting_fiber_left_called"
   end.
 
 (* ---------- entry points for the tie (tools/props/C15.py) ----------
@@ -187,7 +182,7 @@ Definition c_h5 (core : nat) (c : carried) : string :=
      show_b01 (c_classdef c); show_nat (S (count_mods (c_mods c))); show_nat (core + c_chunks c); show_nat core;
      show_nat (List.length (c_ranges c))].
 Definition c_known (o : option known_class) : string :=
-  match o with None => "-" | Some KFailedImport => "I" | Some KWaitingFiber => "W" end.
+  match o with None => "-" | Some KFailedImport => "I" end.
 
 Fixpoint c_rows (core : nat) (ss : list obs) (ms : list (obs * carried)) (ks : list (option known_class)) : list string :=
   match ss, ms, ks with
